@@ -23,7 +23,9 @@ pub const METHODS: &[&str] = &["textDocument/foldingRange", "textDocument/hover"
 #[derive(Clone, Debug, PartialEq, Eq, Hash)]
 pub enum Op {
     Open(usize, usize),
-    /// change(uri, edit): edit 0 = insert a procedure at the start, 1 = delete the first line
+    /// change(uri, edit): edit 0 = insert a procedure at the start, 1 = delete the first line,
+    /// 2 = replace the blank at 2:13 by a line feed, 3 = replace the line end of line 0 by a
+    /// blank (2 and 3 keep every byte offset of TEXTS[1] but move its diagnostic to another line)
     Change(usize, usize),
     Close(usize),
     Request(usize, usize),
@@ -32,7 +34,9 @@ pub enum Op {
 fn edit(k: usize) -> Change {
     match k {
         0 => Change { range: Some((0, 0, 0, 0)), text: "proc q() {\n}\n".into() },
-        _ => Change { range: Some((0, 0, 1, 0)), text: String::new() },
+        1 => Change { range: Some((0, 0, 1, 0)), text: String::new() },
+        2 => Change { range: Some((2, 13, 2, 14)), text: "\n".into() },
+        _ => Change { range: Some((0, 10, 1, 0)), text: " ".into() },
     }
 }
 
@@ -341,6 +345,35 @@ pub fn run(tier: Tier) -> Report {
             None
         })
         .collect();
+    // edit kinds: every sequence of <= 3 edits out of {insert a procedure, split a line, join two
+    // lines} on the document with a diagnostic; the last two keep all byte offsets
+    {
+        let edits = [0usize, 2, 3];
+        let mut seqs: Vec<Vec<usize>> = vec![vec![]];
+        let mut scs: Vec<Vec<Op>> = vec![];
+        for _ in 0..3 {
+            seqs = seqs.iter().flat_map(|s| edits.iter().map(move |e| { let mut x = s.clone(); x.push(*e); x })).collect();
+            for s in &seqs {
+                let mut sc = vec![Op::Open(0, 1)];
+                sc.extend(s.iter().map(|e| Op::Change(0, *e)));
+                sc.push(Op::Request(0, 0));
+                scs.push(sc);
+            }
+        }
+        let fe: Vec<Failure> = scs
+            .par_iter()
+            .filter_map(|sc| {
+                let (n, f) = eval_scenario(sc, true, 1, None, None, false, false);
+                execs.fetch_add(n, Ordering::Relaxed);
+                f.map(|(k, d, c)| mk(format!("{}:edit-kinds", k), d, c))
+            })
+            .collect();
+        parts.push(json!({"part": "edit-kinds", "scenarios": scs.len(), "preemption_bound": 1, "failing": fe.len()}));
+        fails.extend(fe);
+        for sc in scs {
+            all.push((sc, 1));
+        }
+    }
     let all: Vec<Vec<Op>> = all.into_iter().map(|(s, _)| s).collect();
     parts.push(json!({"part": "scenarios", "alphabet_ops": alpha.len(), "max_ops": 3, "extra_small_alphabet_4_operations": tier == Tier::Thorough, "scenarios": all.len(), "failing": f.len()}));
     fails.extend(f);
